@@ -151,6 +151,8 @@ func (c *CodeStore) GetTTL() int64 {
 
 // GetCodeCount counts the number of tokens in the store
 func (c *CodeStore) GetCodeCount() int {
+	c.Lock()
+	defer c.Unlock()
 	return len(c.store)
 }
 
